@@ -69,12 +69,12 @@ theorem pseudo_roundtrip (major older ts rev : Bytes)
 /-! ## ordering -/
 
 /-- The pseudo-version sorts strictly after its base and strictly before the next release: for a release
-    base vX.Y.Z that is vX.Y.(Z+1) (`z` is the number with value Z+1), for a prerelease base vX.Y.Z-pre it
-    is vX.Y.Z. -/
+    base vX.Y.Z that is vX.Y.(Z+1) (`z` is any number with value Z+1 — there is exactly one, and incDecimal
+    computes it, see `incDecimal_spec`), for a prerelease base vX.Y.Z-pre it is vX.Y.Z. -/
 theorem pseudo_between (major older ts rev : Bytes) (p : Semver.Parsed)
     (hp : Semver.parse older = some p) (hts : Ts ts) (hrev : Rev rev) :
     ∃ pv, pseudoVersion major older ts rev = .ok pv ∧ Semver.compare older pv = -1 ∧
-      (p.prerelease = [] → ∃ z, Num z ∧ decValue z = decValue p.patch + 1 ∧
+      (p.prerelease = [] → ∀ z, Num z → decValue z = decValue p.patch + 1 →
           Semver.compare pv (118 :: p.major ++ 46 :: p.minor ++ 46 :: z) = -1) ∧
       (p.prerelease ≠ [] → Semver.compare pv (118 :: p.major ++ 46 :: p.minor ++ 46 :: p.patch) = -1) :=
   between_aux hp hts hrev
@@ -115,5 +115,22 @@ theorem fmtTime_mono (Y M D h m s Y' M' D' h' m' s' : Nat)
   fmtTime_mono_aux hr hr'
 
 example : civilLt (1999, 12, 31, 23, 59, 59) (2000, 1, 1, 0, 0, 0) := by decide
+
+/-- The stamp of every real date and time of day (proleptic Gregorian, year below 10000) passes the range
+    validation that PseudoVersionTime applies (time.Parse), so `pseudo_roundtrip` returns it. -/
+theorem timeValid_fmtTime (Y M D h m s : Nat) (hY : Y < 10000) (hM : 1 ≤ M ∧ M ≤ 12)
+    (hD : 1 ≤ D ∧ D ≤ daysIn M Y) (hh : h < 24) (hm : m < 60) (hs : s < 60) :
+    timeValid (fmtTime Y M D h m s) = true :=
+  timeValid_fmtTime_aux hY hM hD hh hm hs
+
+example : (1 ≤ 29 ∧ 29 ≤ daysIn 2 2024) ∧ ¬ (29 ≤ daysIn 2 1900) := by decide
+
+/-- The zero pseudo-version (time.Time{} and twelve zeros) is recognised as a pseudo-version and is
+    exactly what IsZeroPseudoVersion accepts for its major version. -/
+theorem zeroPseudo_recognised :
+    (zeroPseudoVersion []).toOption = some [118, 48, 46, 48, 46, 48, 45, 48, 48, 48, 49, 48, 49, 48, 49, 48, 48, 48, 48, 48, 48, 45,
+      48, 48, 48, 48, 48, 48, 48, 48, 48, 48, 48, 48]                          -- "v0.0.0-00010101000000-000000000000"
+    ∧ (zeroPseudoVersion []).toOption.map isPseudoVersion = some true
+    ∧ (zeroPseudoVersion []).toOption.map isZeroPseudoVersion = some true := by decide
 
 end ModVerif.Props.C18
